@@ -8,8 +8,13 @@
   the Pauli group is determined by the images of X_j, Z_j, so this pins the gate's action on every row, signs
   included, for every n.  (The identification of that group semantics with Hilbert-space semantics is the cited
   tensor-lifting fact of DESIGN §7; the correspondence run additionally checks it against a dense simulator, n ≤ 5.)
+
+  §4b (state half): for every operation — measurement, reset, insertion, removal, partial trace, swap, tensor — the
+  stabilizer GROUP of the result is given in terms of the group of the input, and `history_tracks_state` chains these
+  along every history as a refinement of the abstract group-transformer semantics `specOps` (Proofs/TabSpec*.lean).
 -/
 import GraphiqModel.Proofs.Tableau
+import GraphiqModel.Proofs.TabSpecFactor
 import GraphiqModel.Proofs.HilbertTab
 import GraphiqModel.Proofs.HilbertKron
 namespace Graphiq.C07
@@ -225,6 +230,387 @@ theorem insert_spec (t : Tab) (p : Nat) (hp : p ≤ t.n) :
   intro i h1 h2
   rw [insertQubit_row_old t p i h1 h2]
   simp [PRow.insertCol]
+
+/-! ## 4b. The state half: what every operation does to the stabilizer GROUP, for every n
+
+  `Grp t` is the signed span of the stabilizer rows of `t` (the vocabulary of `measure_random_spec`: `InSpan`).  Each
+  theorem says which rows are in the group after an operation in terms of the group before it; `history_tracks_state`
+  chains them along any history (refinement of the abstract semantics `specOp`). Hypotheses: the tableau is valid and
+  its stabilizer rows carry no imaginary phase (`StabReal` — preserved by every operation, `history_stab_real`).
+  The identification of the group semantics with Hilbert-space semantics stays the cited tensor-lifting fact. -/
+section StateHalf
+open Graphiq.TabSpec
+
+/-- Bell pair `(|00⟩+|11⟩)/√2`: destabilizers `ZI`, `IX`; stabilizers `XX`, `ZZ` -/
+def bell : Tab :=
+  Tab.ofRows 2 #[
+    PRow.ofArrays #[false,false] #[true,false] false false,
+    PRow.ofArrays #[false,true] #[false,false] false false,
+    PRow.ofArrays #[true,true] #[false,false] false false,
+    PRow.ofArrays #[false,false] #[true,true] false false]
+
+theorem bell_valid : bell.Valid := (isSymplectic_iff_valid bell).mp (by decide)
+theorem bell_real : bell.StabReal := stabRealB_spec bell (by decide)
+
+/-! ### 4b.1 the stabilizer group of a valid tableau -/
+
+/-- the `2n` rows of a valid tableau are a basis of the Pauli strings: a row commuting with all of them is the identity string -/
+theorem valid_rows_nondegenerate (t : Tab) (hv : t.Valid) (P : PRow)
+    (h : ∀ i, i < 2 * t.n → sp t.n P (t.row i) = false) : ∀ j, j < t.n → P.x j = false ∧ P.z j = false :=
+  valid_nondeg t hv P h
+
+/-- the stabilizer group of a valid tableau is a stabilizer group: closed under the signed product, Hermitian, abelian,
+    and it does not contain `-1` (so it stabilizes a non-empty subspace) -/
+theorem stabilizer_group_consistent (t : Tab) (hv : t.Valid) (hr : t.StabReal) : IsStabGrp t.n (Grp t) :=
+  grp_isStabGrp t hv hr
+
+/-- … and it is maximal (`n` independent generators on `n` qubits: a pure state): a Hermitian row commuting with every
+    generator is in the group up to sign -/
+theorem stabilizer_group_maximal (t : Tab) (hv : t.Valid) (hr : t.StabReal) (P : PRow) (hP : P.ip = false)
+    (hc : ∀ i, i < t.n → sp t.n P (t.stab i) = false) : Grp t P ∨ Grp t (negate P) :=
+  grp_maximal t hv hr P hP hc
+
+/-- hence it is the only stabilizer group containing the generators -/
+theorem stabilizer_group_unique (t : Tab) (hv : t.Valid) (H : PRow → Prop) (hH : IsStabGrp t.n H)
+    (hgen : ∀ i, i < t.n → H (t.stab i)) : ∀ P, Grp t P ↔ H P :=
+  grp_unique t hv H hH hgen
+
+example : IsStabGrp bell.n (Grp bell) := stabilizer_group_consistent bell bell_valid bell_real
+example : ∀ i, i < 2 * bell.n → sp bell.n PRow.one (bell.row i) = false := fun _ _ => STab.sp_one_left _ _
+example : (bell.stab 0).ip = false ∧ ∀ i, i < bell.n → sp bell.n (bell.stab 0) (bell.stab i) = false :=
+  ⟨rfl, fun i hi => grp_comm bell bell_valid bell_real _ _ (grp_gen bell 0 (by decide)) (grp_gen bell i hi)⟩
+example : ∀ i, i < bell.n → Grp bell (bell.stab i) := fun i hi => grp_gen bell i hi
+
+/-! ### 4b.2 gates and swap -/
+
+/-- a gate of the API maps the group to its image under the row automorphism (`h_gate t q = t.map (PRow.h q)` etc.) -/
+theorem gate_group_spec (t : Tab) (f : PRow → PRow) (hf : IsAut1 t.n f) :
+    ∀ P, Grp (t.map f) P ↔ ∃ Q, Grp t Q ∧ EqOn t.n P (f Q) :=
+  map_grp t f hf
+
+/-- every gate of the API is such an automorphism (it also fixes the identity row and leaves the i-phase bit alone) -/
+theorem api_gates_are_automorphisms (n q c t : Nat) (hq : q < n) (hc : c < n) (ht : t < n) (hct : c ≠ t) :
+    IsAut1 n (PRow.h q) ∧ IsAut1 n (PRow.s q) ∧ IsAut1 n (PRow.sdg q) ∧ IsAut1 n (PRow.xg q) ∧
+    IsAut1 n (PRow.yg q) ∧ IsAut1 n (PRow.zg q) ∧ IsAut1 n (PRow.cnot c t) ∧ IsAut1 n (PRow.cz c t) :=
+  ⟨isAut1_h n q hq, isAut1_s n q hq, isAut1_sdg n q hq, isAut1_xg n q hq, isAut1_yg n q hq, isAut1_zg n q hq,
+   isAut1_cnot n c t hc ht hct, isAut1_cz n c t hc ht hct⟩
+
+example : ∀ P, Grp (bell.hGate 0) P ↔ ∃ Q, Grp bell Q ∧ EqOn bell.n P (PRow.h 0 Q) :=
+  gate_group_spec bell _ (isAut1_h 2 0 (by decide))
+
+/-- **`swap_gate`** (the statement the historical defect D29 violated): the new group is the old one with the sites `a`, `b`
+    exchanged and the signs untouched; every row — destabilizers included — is permuted the same way, its two phase bits kept -/
+theorem swap_spec (t : Tab) (a b : Nat) (ha : a < t.n) (hb : b < t.n) :
+    (∀ P, Grp (t.swapGate a b) P ↔ Grp t (PRow.swap a b P)) ∧
+    (∀ i, (t.swapGate a b).row i = PRow.swap a b (t.row i)) ∧
+    (∀ i, ((t.swapGate a b).row i).r = (t.row i).r ∧ ((t.swapGate a b).row i).ip = (t.row i).ip ∧
+      ((t.swapGate a b).row i).x a = (t.row i).x b ∧ ((t.swapGate a b).row i).z a = (t.row i).z b ∧
+      ((t.swapGate a b).row i).x b = (t.row i).x a ∧ ((t.swapGate a b).row i).z b = (t.row i).z a) := by
+  refine ⟨swap_grp t a b ha hb, fun _ => rfl, fun i => ⟨rfl, rfl, ?_, ?_, ?_, ?_⟩⟩
+  · simp [swapGate, Tab.map, PRow.swap]
+  · simp [swapGate, Tab.map, PRow.swap]
+  · by_cases h : b = a <;> simp [swapGate, Tab.map, PRow.swap, h]
+  · by_cases h : b = a <;> simp [swapGate, Tab.map, PRow.swap, h]
+
+example : 0 < (Tab.ket1 2).n ∧ 1 < (Tab.ket1 2).n := by decide
+
+/-! ### 4b.3 tensor product -/
+
+/-- **`tensor`**: the group of `a ⊗ b` is generated by `P ⊗ I` (`P` in the group of `a`) and `I ⊗ Q` (`Q` in the group of `b`):
+    its elements are exactly the rows `P ⊗ Q` -/
+theorem tensor_spec (a b : Tab) :
+    ∀ R, Grp (Tab.tensor2 a b) R ↔ ∃ P Q, Grp a P ∧ Grp b Q ∧ EqOn (a.n + b.n) R (tensorRow a.n b.n P Q) :=
+  tensor_grp a b
+
+/-- for Hermitian `P`, `Q`: `P ⊗ Q` is in the group of `a ⊗ b` iff `P`, `Q` are in the groups of `a`, `b` — or `-P`, `-Q`
+    are (`(-P) ⊗ (-Q)` is the same row) -/
+theorem tensor_product_row_spec (a b : Tab) (ha : a.Valid) (hb : b.Valid) (ra : a.StabReal) (rb : b.StabReal)
+    (P Q : PRow) (hP : P.ip = false) (hQ : Q.ip = false) :
+    Grp (Tab.tensor2 a b) (tensorRow a.n b.n P Q) ↔ (Grp a P ∧ Grp b Q) ∨ (Grp a (negate P) ∧ Grp b (negate Q)) :=
+  tensor_row_iff a b ha hb ra rb P Q hP hQ
+
+/-- the stabilizer rows of a tensor product carry no imaginary phase -/
+theorem tensor_stab_real (a b : Tab) (ra : a.StabReal) (rb : b.StabReal) : (Tab.tensor2 a b).StabReal :=
+  tensor_stabReal a b ra rb
+
+example : Grp (Tab.tensor2 bell bell) (tensorRow 2 2 (bell.stab 0) (bell.stab 1)) :=
+  (tensor_product_row_spec bell bell bell_valid bell_valid bell_real bell_real _ _ rfl rfl).mpr
+    (Or.inl ⟨grp_gen bell 0 (by decide), grp_gen bell 1 (by decide)⟩)
+
+/-! ### 4b.4 insertion -/
+
+/-- **`insert_qubit`**, group level: the new group is `{I, Z}_p ⊗ (old group)` with sign `+` (the state is `|0⟩_p ⊗ old state`):
+    `P` is in it iff it acts as `I` or `Z` on site `p` and deleting site `p` leaves an element of the old group -/
+theorem insert_group_spec (t : Tab) (p : Nat) (hp : p ≤ t.n) (hv : t.Valid) (hr : t.StabReal) :
+    ∀ P, Grp (t.insertQubit p) P ↔ (P.x p = false ∧ Grp t (P.deleteCol p)) :=
+  insert_grp t p hp hv hr
+
+example : ∀ P, Grp (bell.insertQubit 1) P ↔ (P.x 1 = false ∧ Grp bell (P.deleteCol 1)) :=
+  insert_group_spec bell 1 (by decide) bell_valid bell_real
+
+/-! ### 4b.5 measurement -/
+
+/-- **random outcome, group level** (textbook update as an equality of groups): the new group is
+    `⟨(-1)^o Z_q⟩ · {old elements commuting with Z_q}` -/
+theorem measure_random_group_spec (t : Tab) (q p : Nat) (o : Bool) (hv : t.Valid) (hr : t.StabReal) (hq : q < t.n)
+    (hp : t.pivot q = some p) :
+    ∀ P, Grp (t.zMeasure q o).1 P ↔ (P.x q = false ∧ (Grp t P ∨ Grp t (PRow.mul t.n P (Zq q o)))) := by
+  have e : (t.zMeasure q o).1 = t.measRandom q p o := by simp [zMeasure, hp]
+  rw [e]; exact measRandom_grp t q p o hv hr hq hp
+
+/-- **deterministic outcome is the right one**: the scratch row is exactly `(-1)^outcome Z_q`, an element of the group
+    (completeness of the deterministic rule — formerly cited) -/
+theorem measure_deterministic_outcome_spec (t : Tab) (q : Nat) (o : Bool) (hv : t.Valid) (hr : t.StabReal) (hq : q < t.n)
+    (hp : t.pivot q = none) :
+    EqOn t.n (t.measScratch q) (Zq q (t.zMeasure q o).2.1) ∧ Grp t (Zq q (t.zMeasure q o).2.1) := by
+  have e : t.zMeasure q o = (t, (t.measScratch q).r, 0) := by simp [zMeasure, hp]
+  rw [e]
+  exact ⟨measScratch_eqOn t hv hr q hq hp, measDet_grp_Zq t hv hr q hq hp⟩
+
+/-- the measurement is deterministic exactly when `±Z_q` is in the group, and the outcome is that sign -/
+theorem measure_deterministic_iff (t : Tab) (q : Nat) (hv : t.Valid) (hr : t.StabReal) (hq : q < t.n) :
+    t.pivot q = none ↔ ∃ s, Grp t (Zq q s) :=
+  ⟨fun hp => ⟨_, measDet_grp_Zq t hv hr q hq hp⟩, fun ⟨s, hs⟩ => pivot_none_of_Zq t hv hr q hq s hs⟩
+
+/-- after a Z measurement of `q` (either branch) the state is the `(-1)^outcome` eigenstate of `Z_q` -/
+theorem measure_leaves_eigenstate (t : Tab) (q : Nat) (o : Bool) (hq : q < t.n) (hv : t.Valid) (hr : t.StabReal) :
+    Grp (t.zMeasure q o).1 (Zq q (t.zMeasure q o).2.1) :=
+  measure_leaves_Zq t q o hq hv hr
+
+example : bell.pivot 1 = some 2 := by decide
+example : (Tab.ket1 2).pivot 0 = none ∧ (Tab.ket1 2).isSymplectic = true ∧ stabRealB (Tab.ket1 2) = true := by decide
+
+/-! ### 4b.6 reset -/
+
+/-- **`reset_z(q, intended)`**:
+    (a) afterwards `(-1)^intended Z_q` is in the group;
+    (b) random case (qubit entangled / not in a Z eigenstate): the result is the measurement branch `outcome = intended` — the
+        drawn / forced outcome `o` is discarded, no conditional `X` is applied;
+    (c) deterministic case: unchanged if `(-1)^intended Z_q` was in the group, otherwise the image under `X_q`;
+    (d) in every case, on the rows acting as the identity on `q` the result agrees with the Z measurement with outcome
+        `intended` (measurement + conditional `X`, the `X` being invisible on those rows) -/
+theorem reset_spec (t : Tab) (q : Nat) (i o : Bool) (hq : q < t.n) (hv : t.Valid) (hr : t.StabReal) :
+    Grp (t.resetZ q i o) (Zq q i) ∧
+    (∀ p, t.pivot q = some p →
+      ∀ P, Grp (t.resetZ q i o) P ↔ (P.x q = false ∧ (Grp t P ∨ Grp t (PRow.mul t.n P (Zq q i))))) ∧
+    (t.pivot q = none →
+      (Grp t (Zq q i) → t.resetZ q i o = t) ∧
+      (Grp t (Zq q (!i)) → ∀ P, Grp (t.resetZ q i o) P ↔ ∃ Q, Grp t Q ∧ EqOn t.n P (PRow.xg q Q))) ∧
+    (∀ P, P.x q = false → P.z q = false → (Grp (t.resetZ q i o) P ↔ Grp (t.zMeasure q i).1 P)) := by
+  refine ⟨resetZ_has_Zq t q i o hq hv hr, ?_, ?_, fun P hx hz => resetZ_other_qubits t q i o hq hv hr P hx hz⟩
+  · intro p hp P
+    rw [resetZ_random_grp t q p i o hr hq hp, measRandom_grp t q p i hv hr hq hp]
+  · intro hp
+    constructor
+    · intro hz
+      rw [resetZ_det_eq t q i o hp, if_pos (measScratch_r_of_Zq t hv hr q hq i hz)]
+    · intro hz P
+      have hs := measScratch_r_of_Zq t hv hr q hq (!i) hz
+      have hne : ¬ ((t.measScratch q).r = i) := by rw [hs]; cases i <;> simp
+      rw [resetZ_det_eq t q i o hp, if_neg hne]
+      exact map_grp t _ (isAut1_xg t.n q hq) P
+
+/-- the entangled-qubit case of `reset_spec` on the Bell pair: whatever outcome is drawn, both qubits end in `|intended⟩` -/
+example (o : Bool) : Grp (bell.resetZ 1 true o) (Zq 0 true) := by
+  have h := (reset_spec bell 1 true o (by decide) bell_valid bell_real).2.1 2 (by decide) (Zq 0 true)
+  refine h.mpr ⟨rfl, Or.inr ?_⟩
+  exact InSpan.eqv _ _ (grp_gen bell 1 (by decide)) (eqOn_check 2 _ _ (by decide))
+
+/-- witness for (b): in the random branch `reset_z` is NOT "measure with the forced outcome, then flip".  Bell pair, qubit 1,
+    forced outcome 0, intended 1: `reset_z` keeps `+Z_0Z_1` (both qubits end in `|1⟩`), whereas the measurement with outcome 0
+    followed by `X_1` gives `-Z_0Z_1` (qubit 0 stays in `|0⟩`); the two groups differ.  Replayed on the Python API
+    (`handoff/c07.md`; accepted by the property as "a branch of the measurement", DESIGN §0.5). -/
+theorem reset_random_branch_witness :
+    Grp (bell.resetZ 1 true false) (bell.stab 1) ∧
+    Grp ((bell.zMeasure 1 false).1.xGate 1) (negate (bell.stab 1)) ∧
+    ¬ Grp (bell.resetZ 1 true false) (negate (bell.stab 1)) := by
+  have h1 : Grp (bell.resetZ 1 true false) (bell.stab 1) :=
+    InSpan.eqv _ _ (grp_gen (bell.resetZ 1 true false) 1 (by decide)) (eqOn_check 2 _ _ (by decide))
+  refine ⟨h1, ?_, ?_⟩
+  · exact InSpan.eqv _ _ (grp_gen ((bell.zMeasure 1 false).1.xGate 1) 1 (by decide)) (eqOn_check 2 _ _ (by decide))
+  · have hv := resetZ_valid bell 1 true false (by decide) bell_valid
+    have hr := (resetZ_tracks bell 1 true false (by decide) bell_valid bell_real).1
+    exact (stabilizer_group_consistent _ hv hr).cons _ h1
+
+/-! ### 4b.7 removing a qubit -/
+
+/-- **`remove_qubit` never hits its `assert len(non_zero) > 0`** on a valid tableau -/
+theorem remove_qubit_total (t : Tab) (q : Nat) (o : Bool) (hq : q < t.n) (hv : t.Valid) :
+    ∃ t', t.removeQubit q o = .ok t' :=
+  removeQubit_total t q o hq hv
+
+/-- **`remove_qubit` is "Z-measure, then drop" in one call** (all three internal cases): `P'` is in the new group iff `P'`
+    with an identity inserted at site `q` is in the group of the measured tableau; in the random case this is the collapse by
+    the outcome `o` -/
+theorem remove_qubit_general_spec (t t' : Tab) (q : Nat) (o : Bool) (hq : q < t.n) (hv : t.Valid) (hr : t.StabReal)
+    (h : t.removeQubit q o = .ok t') :
+    t'.n = t.n - 1 ∧ t'.StabReal ∧ ∀ P', Grp t' P' ↔ Grp (t.zMeasure q o).1 (P'.insertCol q) := by
+  obtain ⟨n', _, r', g⟩ := removeQubit_grp t t' q o hq hv hr h
+  exact ⟨n', r', g⟩
+
+/-- the entangled case made explicit: the result depends on the outcome -/
+theorem remove_entangled_qubit_spec (t t' : Tab) (q p : Nat) (o : Bool) (hq : q < t.n) (hv : t.Valid) (hr : t.StabReal)
+    (hp : t.pivot q = some p) (h : t.removeQubit q o = .ok t') :
+    ∀ P', Grp t' P' ↔ (Grp t (P'.insertCol q) ∨ Grp t (PRow.mul t.n (P'.insertCol q) (Zq q o))) := by
+  intro P'
+  rw [(remove_qubit_general_spec t t' q o hq hv hr h).2.2 P', measure_random_group_spec t q p o hv hr hq hp]
+  constructor
+  · exact fun h => h.2
+  · exact fun h => ⟨insertCol_x q P', h⟩
+
+/-- **`remove_qubit_spec`**: when qubit `q` is disentangled in a computational-basis state (`(-1)^s Z_q` in the group) the
+    removal leaves the state of the others unchanged: `P'` is in the new group iff inserting `I` at `q` gives an element of
+    the old group; equivalently every old element (it acts as `I` or `Z` on `q`), with its `Z_q` factor replaced by the sign
+    `(-1)^s` and site `q` deleted, is in the new group.  No outcome is drawn (`o` is irrelevant). -/
+theorem remove_qubit_spec (t t' : Tab) (q : Nat) (s o : Bool) (hq : q < t.n) (hv : t.Valid) (hr : t.StabReal)
+    (hz : Grp t (Zq q s)) (h : t.removeQubit q o = .ok t') :
+    t'.n = t.n - 1 ∧ (∀ P', Grp t' P' ↔ Grp t (P'.insertCol q)) ∧
+    (∀ P, Grp t P → P.x q = false ∧ Grp t' ((if P.z q then PRow.mul t.n P (Zq q s) else P).deleteCol q)) :=
+  ⟨(removeQubit_grp t t' q o hq hv hr h).1,
+   removeQubit_unentangled_grp t t' q o hq hv hr (unentangled_of_Zq t q s hz) h,
+   fun P hP => removeQubit_Zq_image t t' q o s hq hv hr hz h P hP⟩
+
+/-- more generally, removing a qubit that is a pure product factor (some single-site Pauli on `q` is a stabilizer: `|0⟩,|1⟩,|±⟩,|±i⟩`)
+    leaves the state of the others unchanged whatever the drawn outcome -/
+theorem remove_unentangled_qubit_spec (t t' : Tab) (q : Nat) (o : Bool) (hq : q < t.n) (hv : t.Valid) (hr : t.StabReal)
+    (hu : Unentangled t q) (h : t.removeQubit q o = .ok t') :
+    ∀ P', Grp t' P' ↔ Grp t (P'.insertCol q) :=
+  removeQubit_unentangled_grp t t' q o hq hv hr hu h
+
+/-- Bell pair: measure qubit 1 (outcome 1), remove it — the hypotheses of `remove_qubit_spec` hold, the kept qubit is `|1⟩` -/
+example : ∃ t', (bell.zMeasure 1 true).1.removeQubit 1 false = .ok t' ∧ t'.n = 1 ∧ Grp t' (Zq 0 true) := by
+  have hv := zMeasure_valid bell 1 true (by decide) bell_valid
+  have hr := zMeasure_stabReal bell 1 true (by decide) bell_valid bell_real
+  have hz : Grp (bell.zMeasure 1 true).1 (Zq 1 true) := measure_leaves_eigenstate bell 1 true (by decide) bell_valid bell_real
+  obtain ⟨t', h⟩ := remove_qubit_total (bell.zMeasure 1 true).1 1 false (by decide) hv
+  obtain ⟨n', g, _⟩ := remove_qubit_spec _ t' 1 true false (by decide) hv hr hz h
+  refine ⟨t', h, n', (g _).mpr ?_⟩
+  -- `-Z_0 = (-Z_1)(Z_0 Z_1)` in the measured group
+  exact InSpan.eqv _ _ (InSpan.mul _ _ (grp_gen _ 0 (by decide)) (grp_gen _ 1 (by decide))) (eqOn_check 2 _ _ (by decide))
+
+/-- Bell pair, qubit 1 removed without measuring first: the kept qubit collapses to `|o⟩` (not the maximally mixed reduced state) -/
+example (o : Bool) : ∃ t', bell.removeQubit 1 o = .ok t' ∧ Grp t' (Zq 0 o) := by
+  obtain ⟨t', h⟩ := remove_qubit_total bell 1 o (by decide) bell_valid
+  refine ⟨t', h, (remove_entangled_qubit_spec bell t' 1 2 o (by decide) bell_valid bell_real (by decide) h _).mpr (Or.inr ?_)⟩
+  cases o
+  · exact InSpan.eqv _ _ (grp_gen bell 1 (by decide)) (eqOn_check 2 _ _ (by decide))
+  · exact InSpan.eqv _ _ (grp_gen bell 1 (by decide)) (eqOn_check 2 _ _ (by decide))
+
+/-! ### 4b.8 partial trace -/
+
+/-- **`partial_trace(t, keep)`** removes the qubits not kept, highest index first, each by `remove_qubit` (Z-measure, then
+    drop); a drawn outcome is consumed only when a measurement is random.  General statement: the result refines the
+    abstract semantics `specPtrace` (iterated `specRemove`), i.e. it is the state *collapsed by the outcome script* -/
+theorem partial_trace_spec (t t' : Tab) (keep : List Nat) (os : List Bool) (hv : t.Valid) (hr : t.StabReal)
+    (h : t.partialTrace keep os = .ok t') :
+    t'.StabReal ∧ gstate t' = specPtrace keep os (gstate t) :=
+  (ptrace_tracks t t' keep os hv hr h).2
+
+example : (match bell.partialTrace [0] [true] with | .ok t' => t'.n == 1 | .error _ => false) = true := by decide
+
+/-- **reduced state of a pure product factor**: if every traced-out qubit is unentangled (carries a single-site stabilizer;
+    in particular: is in a computational-basis state), the result is the state of the kept qubits — `P'` is in the new group
+    iff `P'` with identities inserted at the traced-out positions is in the old group — whatever the outcomes.
+    (If a traced-out qubit is entangled with a kept one, the code collapses the kept qubits by the measurement outcome —
+    `remove_entangled_qubit_spec` — where the true partial trace would be mixed.) -/
+theorem partial_trace_product_spec (t t' : Tab) (keep : List Nat) (os : List Bool) (hv : t.Valid) (hr : t.StabReal)
+    (hu : ∀ q, q < t.n → q ∉ keep → Unentangled t q) (h : t.partialTrace keep os = .ok t') :
+    t'.n + (removalList t.n keep).length = t.n ∧
+    ∀ P', Grp t' P' ↔ Grp t (embedCols (removalList t.n keep) P') :=
+  partialTrace_product_grp t t' keep os hv hr hu h
+
+/-- `|1⟩ ⊗ Bell`-like product: in `ket1 3` every qubit is unentangled, tracing out qubits 0 and 2 is accepted -/
+example : (∀ q, q < (Tab.ket1 3).n → q ∉ [1] → Unentangled (Tab.ket1 3) q) ∧
+    (match (Tab.ket1 3).partialTrace [1] [] with | .ok t' => t'.n == 1 | .error _ => false) = true := by
+  refine ⟨fun q hq _ => ?_, by decide⟩
+  have hq' : q < 3 := hq
+  exact unentangled_of_Zq _ q true (by
+    have : Zq q true = (Tab.ket1 3).stab q := by simp [Tab.ket1, Tab.stab]
+    rw [this]; exact grp_gen _ q hq)
+
+/-- the same for a traced-out factor that may be entangled *internally*: if the group is a product across the cut
+    (`Factor`: every element restricted to the kept sites is in the group up to sign), the result is the reduced state of the
+    kept factor, whatever outcomes are drawn while the traced-out qubits are measured away -/
+theorem partial_trace_factor_spec (t t' : Tab) (keep : List Nat) (os : List Bool) (hv : t.Valid) (hr : t.StabReal)
+    (hf : Factor t (removalList t.n keep)) (h : t.partialTrace keep os = .ok t') :
+    t'.n + (removalList t.n keep).length = t.n ∧
+    ∀ P', Grp t' P' ↔ Grp t (embedCols (removalList t.n keep) P') :=
+  partialTrace_factor_grp t t' keep os hv hr hf h
+
+/-- **`partial_trace(tensor([a, b]), keep = the qubits of a)` is `a`**: same number of qubits and same stabilizer group,
+    for all valid `a`, `b` and all outcome scripts (`tensor_spec` and `partial_trace_factor_spec` combined) -/
+theorem partial_trace_of_tensor_spec (a b t' : Tab) (os : List Bool) (ha : a.Valid) (hb : b.Valid) (ra : a.StabReal)
+    (rb : b.StabReal) (h : (Tab.tensor2 a b).partialTrace (List.range a.n) os = .ok t') :
+    t'.n = a.n ∧ ∀ P', Grp t' P' ↔ Grp a P' :=
+  partialTrace_tensor_left a b t' os ha hb ra rb h
+
+/-- … and `partial_trace(tensor([a, b]), keep = the qubits of b)` is `b` -/
+theorem partial_trace_of_tensor_right_spec (a b t' : Tab) (os : List Bool) (ha : a.Valid) (hb : b.Valid) (ra : a.StabReal)
+    (rb : b.StabReal) (h : (Tab.tensor2 a b).partialTrace (rightSites a.n b.n) os = .ok t') :
+    t'.n = b.n ∧ ∀ Q', Grp t' Q' ↔ Grp b Q' :=
+  partialTrace_tensor_right a b t' os ha hb ra rb h
+
+example : (match (Tab.tensor2 bell (Tab.ket1 1)).partialTrace (rightSites 2 1) [false] with
+    | .ok t' => t'.n == 1 && t'.isSymplectic | .error _ => false) = true := by decide +kernel
+
+/-- `|1⟩ ⊗ Bell`: the Bell pair (entangled internally, random outcomes) is traced out, `|1⟩` is left -/
+example : (match (Tab.tensor2 (Tab.ket1 1) bell).partialTrace (List.range 1) [true] with
+    | .ok t' => t'.n == 1 && t'.isSymplectic | .error _ => false) = true := by decide +kernel
+example : Factor (Tab.tensor2 (Tab.ket1 1) bell) (removalList 3 (List.range 1)) :=
+  tensor_factor (Tab.ket1 1) bell ((isSymplectic_iff_valid _).mp (by decide)) bell_valid
+    (stabRealB_spec _ (by decide)) bell_real _ (fun j hj => by
+      have := mem_removalList_range 1 2 j
+      simp only [Tab.ket1, show bell.n = 2 from rfl] at hj ⊢
+      rw [this]; omega)
+
+/-! ### 4b.9 every history tracks the state -/
+
+theorem wf_iff (op : Tab.Op) : WF op ↔ OpWF op := by cases op <;> exact Iff.rfl
+
+/-- **one API call refines the abstract semantics**: the stabilizer group after the call is `specOp op` of the group before -/
+theorem op_tracks_state (t t' : Tab) (op : Tab.Op) (out : Option (Bool × Bool)) (hop : WF op) (hv : t.Valid)
+    (hr : t.StabReal) (h : t.applyOp op = .ok (t', out)) :
+    t'.StabReal ∧ gstate t' = specOp op (gstate t) :=
+  op_tracks t t' op out ((wf_iff op).mp hop) hv hr h
+
+/-- **History theorem, state half (refinement).**  From a valid tableau whose stabilizer rows are real, along any finite
+    history of API calls that the API accepts (gates, swap, measurements and resets with any outcome script, insertions,
+    removals, partial traces), the tableau stays valid, its stabilizer rows stay real, and its stabilizer group is the
+    abstract group-transformer semantics `specOps` applied to the initial group. -/
+theorem history_tracks_state (ops : List Tab.Op) (hops : ∀ op ∈ ops, WF op) :
+    ∀ (t t' : Tab), t.Valid → t.StabReal → t.runOps ops = .ok t' →
+      t'.Valid ∧ t'.StabReal ∧ gstate t' = specOps ops (gstate t) := by
+  induction ops with
+  | nil => intro t t' hv hr h; simp [runOps] at h; rw [← h]; exact ⟨hv, hr, rfl⟩
+  | cons op rest ih =>
+    intro t t' hv hr h
+    simp only [runOps] at h
+    split at h
+    · next t1 out h1 =>
+      have hop := hops op List.mem_cons_self
+      have v1 := op_preserves_valid t t1 op out hop hv h1
+      obtain ⟨r1, g1⟩ := op_tracks_state t t1 op out hop hv hr h1
+      obtain ⟨v', r', g'⟩ := ih (fun o ho => hops o (List.mem_cons_of_mem _ ho)) t1 t' v1 r1 h
+      exact ⟨v', r', by rw [g', g1]; rfl⟩
+    · simp at h
+
+/-- the same, read element-wise: number of qubits and membership in the stabilizer group -/
+theorem history_tracks_group (ops : List Tab.Op) (hops : ∀ op ∈ ops, WF op) (t t' : Tab) (hv : t.Valid)
+    (hr : t.StabReal) (h : t.runOps ops = .ok t') :
+    t'.n = (specOps ops (gstate t)).n ∧ ∀ P, Grp t' P ↔ (specOps ops (gstate t)).G P := by
+  have g := (history_tracks_state ops hops t t' hv hr h).2.2
+  exact ⟨congrArg GState.n g, fun P => by rw [← g]; rfl⟩
+
+/-- along every accepted history no stabilizer generator acquires an imaginary phase -/
+theorem history_stab_real (ops : List Tab.Op) (hops : ∀ op ∈ ops, WF op) (t t' : Tab) (hv : t.Valid)
+    (hr : t.StabReal) (h : t.runOps ops = .ok t') : t'.StabReal :=
+  (history_tracks_state ops hops t t' hv hr h).2.1
+
+example : (match bell.runOps [.h 0, .cnot 0 1, .meas 1 true, .insert 2, .resetY 0 true false, .swap 1 2, .remove 0 true,
+      .ptrace [0] [false]] with
+    | .ok t' => t'.n == 1 && t'.isSymplectic | .error _ => false) = true := by decide +kernel
+
+end StateHalf
 
 /-! ## 5. Non-vacuity: concrete non-trivial objects satisfy the hypotheses -/
 
